@@ -352,15 +352,183 @@ theorem dropKeep_spec {s s6 : Store} {reported rep' : ChainMap} {final : List TM
     simp only [finalModels, List.filter_nil, List.map_nil, List.nil_append] at this
     exact ⟨this, rfl⟩
 
+/-! ### round `c04rep2`: the dict of models -/
+
+def modelKeys (mm : ModelMap) : List ChainKey := mm.map (·.1)
+
+theorem chainKeys_idMapOf (mm : ModelMap) : chainKeys (idMapOf mm) = modelKeys mm := by
+  simp [chainKeys, idMapOf, modelKeys, List.map_map, Function.comp_def]
+
+theorem amGet?_idMapOf (mm : ModelMap) (k : ChainKey) : amGet? (idMapOf mm) k = (amGet? mm k).map (·.tid) := by
+  induction mm with
+  | nil => rfl
+  | cons a t ih =>
+    obtain ⟨k', v⟩ := a
+    simp only [idMapOf, List.map_cons, amGet?] at ih ⊢
+    split
+    · rfl
+    · exact ih
+
+theorem amHas_idMapOf (mm : ModelMap) (k : ChainKey) : amHas (idMapOf mm) k = amHas mm k := by
+  simp [amHas, amGet?_idMapOf]
+
+theorem idMapOf_amSet (mm : ModelMap) (k : ChainKey) (v : TModel) : idMapOf (amSet mm k v) = amSet (idMapOf mm) k v.tid := by
+  induction mm with
+  | nil => rfl
+  | cons a t ih =>
+    obtain ⟨k', v'⟩ := a
+    simp only [idMapOf, List.map_cons, amSet] at ih ⊢
+    split
+    · rfl
+    · simp only [List.map_cons, ih]
+
+theorem idMapOf_insertNew (l : ModelMap) (p : ChainKey × TModel) :
+    idMapOf (modelInsertNew l p) = mapInsertNew (idMapOf l) (p.1, p.2.tid) := by
+  unfold modelInsertNew mapInsertNew
+  rw [amHas_idMapOf]
+  split
+  · rfl
+  · simp [idMapOf]
+
+theorem idMapOf_foldl_insertNew (ps l : ModelMap) :
+    idMapOf (ps.foldl modelInsertNew l) = (idMapOf ps).foldl mapInsertNew (idMapOf l) := by
+  induction ps generalizing l with
+  | nil => rfl
+  | cons a t ih =>
+    simp only [List.foldl_cons, ih, idMapOf_insertNew]
+    rfl
+
+theorem idMapOf_foldl_amSet (ps l : ModelMap) :
+    idMapOf (ps.foldl (fun l p => amSet l p.1 p.2) l) = (idMapOf ps).foldl (fun l p => amSet l p.1 p.2) (idMapOf l) := by
+  induction ps generalizing l with
+  | nil => rfl
+  | cons a t ih =>
+    simp only [List.foldl_cons, ih, idMapOf_amSet]
+    rfl
+
+theorem idMapOf_modelPairs (ms : List TModel) : idMapOf (modelPairs ms) = reportPairs ms := by
+  simp [idMapOf, modelPairs, reportPairs, List.map_map, Function.comp_def]
+
+/-- fix 0c8e711's dict is the id view of the current one -/
+theorem idMapOf_mapUpdateM (reported : ModelMap) (ms : List TModel) :
+    idMapOf (mapUpdateM reported ms) = mapUpdate (idMapOf reported) ms := by
+  unfold mapUpdateM mapUpdate
+  rw [idMapOf_foldl_amSet, idMapOf_foldl_insertNew, idMapOf_modelPairs]
+  rfl
+
+theorem mem_modelKeys_mapUpdateM {reported : ModelMap} {ms : List TModel} {x : ChainKey} :
+    x ∈ modelKeys (mapUpdateM reported ms) ↔ x ∈ modelKeys reported ∨ x ∈ reportKeys ms := by
+  rw [← chainKeys_idMapOf, idMapOf_mapUpdateM, mem_chainKeys_mapUpdate, chainKeys_idMapOf]
+
+/-- every model the update stores is a spliced novel model of the list, under its own chain -/
+theorem mem_mapUpdateM {reported : ModelMap} {ms : List TModel} {p : ChainKey × TModel} (h : p ∈ mapUpdateM reported ms) :
+    p ∈ reported ∨ (p.2 ∈ ms ∧ isSplicedNovel p.2 = true ∧ chainKey p.2 = p.1) := by
+  unfold mapUpdateM at h
+  have hown : ∀ (ps l : ModelMap) (q : ChainKey × TModel), q ∈ ps.foldl modelInsertNew l → q ∈ l ∨ q ∈ ps := by
+    intro ps
+    induction ps with
+    | nil => intro l q hq; exact Or.inl hq
+    | cons a t ih =>
+      intro l q hq
+      simp only [List.foldl_cons] at hq
+      rcases ih _ _ hq with h1 | h1
+      · unfold modelInsertNew at h1
+        split at h1
+        · exact Or.inl h1
+        · rcases List.mem_append.1 h1 with h2 | h2
+          · exact Or.inl h2
+          · simp at h2; exact Or.inr (by simp [h2])
+      · exact Or.inr (List.mem_cons_of_mem _ h1)
+  have hupd : ∀ (ps l : ModelMap) (q : ChainKey × TModel), q ∈ ps.foldl (fun l p => amSet l p.1 p.2) l → q ∈ l ∨ q ∈ ps := by
+    intro ps
+    induction ps with
+    | nil => intro l q hq; exact Or.inl hq
+    | cons a t ih =>
+      intro l q hq
+      simp only [List.foldl_cons] at hq
+      rcases ih _ _ hq with h1 | h1
+      · rcases mem_amSet h1 with h2 | h2
+        · exact Or.inr (by simp [h2])
+        · exact Or.inl h2
+      · exact Or.inr (List.mem_cons_of_mem _ h1)
+  rcases hupd _ _ _ h with h1 | h1
+  · exact Or.inl h1
+  · rcases hown _ _ _ h1 with h2 | h2
+    · simp at h2
+    · simp only [modelPairs, List.mem_map, List.mem_filter] at h2
+      obtain ⟨m, ⟨hm, hsn⟩, rfl⟩ := h2
+      exact Or.inr ⟨hm, hsn, rfl⟩
+
+/-- the copies that join are values of the dict, in dict order -/
+theorem mem_overlapping {span : Int × Int} {mm : ModelMap} {em : List TModel} (h : overlapping span mm = some em) {m : TModel} :
+    m ∈ em ↔ ∃ k a b, (k, m) ∈ mm ∧ m.startPos = some a ∧ m.endPos = some b ∧ a ≤ span.2 ∧ span.1 ≤ b := by
+  induction mm generalizing em with
+  | nil =>
+    simp only [overlapping, Option.some.injEq] at h
+    subst h; simp
+  | cons x t ih =>
+    obtain ⟨k', m'⟩ := x
+    simp only [overlapping] at h
+    split at h
+    · rename_i a b r ha hb hr
+      simp only [Option.some.injEq] at h
+      subst h
+      have ih' := ih hr
+      constructor
+      · intro hm
+        split at hm
+        · rename_i hov
+          rcases List.mem_cons.1 hm with rfl | hm'
+          · exact ⟨k', a, b, by simp, ha, hb, hov.1, hov.2⟩
+          · obtain ⟨k, a', b', hk, hx⟩ := ih'.1 hm'
+            exact ⟨k, a', b', List.mem_cons_of_mem _ hk, hx⟩
+        · obtain ⟨k, a', b', hk, hx⟩ := ih'.1 hm
+          exact ⟨k, a', b', List.mem_cons_of_mem _ hk, hx⟩
+      · rintro ⟨k, a', b', hk, ha', hb', h1, h2⟩
+        rcases List.mem_cons.1 hk with heq | hk'
+        · simp only [Prod.mk.injEq] at heq
+          obtain ⟨_, rfl⟩ := heq
+          rw [ha] at ha'; rw [hb] at hb'
+          simp only [Option.some.injEq] at ha' hb'
+          subst ha' hb'
+          simp [h1, h2]
+        · have := ih'.2 ⟨k, a', b', hk', ha', hb', h1, h2⟩
+          split
+          · exact List.mem_cons_of_mem _ this
+          · exact this
+    · simp at h
+
+/-- the current `drop_novel_chains_reported_elsewhere`: dumped models, the storage of the second assignment, the new dict, and
+    the bookkeeping (the deletion loop is the loop of fix b2b4dd9) -/
+theorem dropJoin_spec {s s6 : Store} {reported rep' : ModelMap} {span : Option (Int × Int)} {final : List TModel}
+    (h : s.dropJoin reported span = some (s6, final, rep')) :
+    final = s.models.filter (keepModel (modelKeys reported)) ∧ rep' = mapUpdateM reported final ∧
+    ∃ em s', earlierModels reported span = some em ∧ s6.models = final ++ em ∧
+      s.dropReported (modelKeys reported) = some (s', keyUnion (modelKeys reported) (reportKeys final)) ∧ s'.models = final ∧
+      s6.readIds = s'.readIds ∧ s6.counter = s'.counter ∧ s6.rcount = s'.rcount := by
+  unfold Store.dropJoin at h
+  rw [chainKeys_idMapOf] at h
+  split at h
+  · simp at h
+  · rename_i s1 rk hd
+    split at h
+    · simp at h
+    · rename_i em he
+      simp only [Option.some.injEq, Prod.mk.injEq] at h
+      obtain ⟨rfl, rfl, rfl⟩ := h
+      obtain ⟨hm, hr, _⟩ := dropReported_spec hd
+      refine ⟨hm, rfl, em, s1, he, rfl, ?_, rfl, rfl, rfl, rfl⟩
+      rw [hd, hr]
+
 /-! ### the tail of `process()` -/
 
 /-- what the dumped storage of a current constructor holds and what it hands on -/
-theorem regionTail_fixed_spec {reported rep' : ChainMap} {r : RegionIn} {s5 s : Store}
-    (h : regionTail .keepReads reported r s5 = some (s, rep')) :
-    reportKeys s.models = reportKeys (s5.models.filter (keepModel (chainKeys reported))) ∧
-    (∀ k, k ∈ chainKeys rep' ↔ k ∈ chainKeys reported ∨ k ∈ reportKeys s.models) ∧
-    s.models = (s5.models.filter (keepModel (chainKeys reported))).map (fun m => { m with gene := r.newGene m }) ∧
-    rep' = mapUpdate reported (s5.models.filter (keepModel (chainKeys reported))) := by
+theorem regionTail_fixed_spec {reported rep' : ModelMap} {r : RegionIn} {s5 s : Store}
+    (h : regionTail .joinEarlier reported r s5 = some (s, rep')) :
+    reportKeys s.models = reportKeys (s5.models.filter (keepModel (modelKeys reported))) ∧
+    (∀ k, k ∈ modelKeys rep' ↔ k ∈ modelKeys reported ∨ k ∈ reportKeys s.models) ∧
+    s.models = (s5.models.filter (keepModel (modelKeys reported))).map (fun m => { m with gene := r.newGene m }) ∧
+    rep' = mapUpdateM reported (s5.models.filter (keepModel (modelKeys reported))) := by
   unfold regionTail at h
   simp only at h
   split at h
@@ -368,20 +536,20 @@ theorem regionTail_fixed_spec {reported rep' : ChainMap} {r : RegionIn} {s5 s : 
   · rename_i s6 final rep hd
     simp only [Option.some.injEq, Prod.mk.injEq] at h
     obtain ⟨rfl, rfl⟩ := h
-    obtain ⟨hf, hr⟩ := dropKeep_spec hd
+    obtain ⟨hf, hr, _⟩ := dropJoin_spec hd
     subst hf
     refine ⟨reportKeys_map_gene _ _, ?_, rfl, hr⟩
     intro k
-    rw [hr, mem_chainKeys_mapUpdate]
+    rw [hr, mem_modelKeys_mapUpdateM]
     simp only [reportKeys_map_gene]
 
-/-- the code of fix b2b4dd9 dumps the same models and hands on the same keys -/
-theorem regionTail_b2b4_spec {reported rep' : ChainMap} {r : RegionIn} {s5 s : Store}
+/-- the code of fix b2b4dd9 dumps the same models and hands on the same dict -/
+theorem regionTail_b2b4_spec {reported rep' : ModelMap} {r : RegionIn} {s5 s : Store}
     (h : regionTail .dropOnly reported r s5 = some (s, rep')) :
-    s.models = (s5.models.filter (keepModel (chainKeys reported))).map (fun m => { m with gene := r.newGene m }) ∧
-    rep' = mapUpdate reported (s5.models.filter (keepModel (chainKeys reported))) := by
+    s.models = (s5.models.filter (keepModel (modelKeys reported))).map (fun m => { m with gene := r.newGene m }) ∧
+    rep' = mapUpdateM reported (s5.models.filter (keepModel (modelKeys reported))) := by
   unfold regionTail at h
-  simp only at h
+  simp only [chainKeys_idMapOf] at h
   split at h
   · simp at h
   · rename_i s6 rep hd
@@ -392,7 +560,24 @@ theorem regionTail_b2b4_spec {reported rep' : ChainMap} {r : RegionIn} {s5 s : S
     rw [hm]
     exact ⟨rfl, rfl⟩
 
-theorem regionTail_orig_spec {reported rep' : ChainMap} {r : RegionIn} {s5 s : Store}
+/-- … and so does the code of fix 0c8e711 -/
+theorem regionTail_0c8e_spec {reported rep' : ModelMap} {r : RegionIn} {s5 s : Store}
+    (h : regionTail .renameCopy reported r s5 = some (s, rep')) :
+    s.models = (s5.models.filter (keepModel (modelKeys reported))).map (fun m => { m with gene := r.newGene m }) ∧
+    rep' = mapUpdateM reported (s5.models.filter (keepModel (modelKeys reported))) := by
+  unfold regionTail at h
+  simp only at h
+  split at h
+  · simp at h
+  · rename_i s6 final rep hd
+    simp only [Option.some.injEq, Prod.mk.injEq] at h
+    obtain ⟨rfl, rfl⟩ := h
+    obtain ⟨hf, _⟩ := dropKeep_spec hd
+    rw [chainKeys_idMapOf] at hf
+    subst hf
+    exact ⟨rfl, rfl⟩
+
+theorem regionTail_orig_spec {reported rep' : ModelMap} {r : RegionIn} {s5 s : Store}
     (h : regionTail .none reported r s5 = some (s, rep')) :
     rep' = reported ∧ s.models = s5.models.map (fun m => { m with gene := r.newGene m }) := by
   unfold regionTail at h
@@ -424,13 +609,17 @@ theorem runChromosome_prefix (rp : Repair) (next : Nat → Nat) (regs : List Reg
       obtain ⟨new, hn, hl⟩ := ih _ _ h
       exact ⟨s :: new, by simp [hn], by simp [hl]⟩
 
-/-- one current constructor: its keys are new, the dict it hands on has the old keys plus its keys, and every new entry is
-    (chain, id) of a model it dumps -/
+/-- the model a dumped model was before the joiner renamed its gene -/
+def SameModel (a b : TModel) : Prop := a.tid = b.tid ∧ a.exons = b.exons ∧ a.strand = b.strand ∧ chainKey a = chainKey b
+
+/-- one current constructor: its keys are new, the dict it hands on has the old keys plus its keys, and every new entry is a
+    model it dumps (up to the gene id the joiner writes), stored under that model's chain -/
 theorem processRegion_fixed_keys {next : Nat → Nat} {cs cs' : ChrState} {r : RegionIn} {s : Store}
-    (h : processRegion .keepReads next cs r = some (cs', s)) :
-    (∀ k ∈ reportKeys s.models, k ∉ chainKeys cs.reported) ∧
-    (∀ k, k ∈ chainKeys cs'.reported ↔ k ∈ chainKeys cs.reported ∨ k ∈ reportKeys s.models) ∧
-    (∀ p ∈ cs'.reported, p ∈ cs.reported ∨ ∃ m ∈ s.models, isSplicedNovel m = true ∧ chainKey m = p.1 ∧ m.tid = p.2) := by
+    (h : processRegion .joinEarlier next cs r = some (cs', s)) :
+    (∀ k ∈ reportKeys s.models, k ∉ modelKeys cs.reported) ∧
+    (∀ k, k ∈ modelKeys cs'.reported ↔ k ∈ modelKeys cs.reported ∨ k ∈ reportKeys s.models) ∧
+    (∀ p ∈ cs'.reported, p ∈ cs.reported ∨
+      ∃ m ∈ s.models, isSplicedNovel m = true ∧ chainKey m = p.1 ∧ SameModel m p.2) := by
   unfold processRegion at h
   split at h
   · simp at h
@@ -447,20 +636,20 @@ theorem processRegion_fixed_keys {next : Nat → Nat} {cs cs' : ChrState} {r : R
       · intro p hp
         simp only at hp
         rw [hrep] at hp
-        rcases mem_mapUpdate hp with h1 | ⟨m, hm, hsn, hck, htid⟩
+        rcases mem_mapUpdateM hp with h1 | ⟨hm, hsn, hck⟩
         · exact Or.inl h1
-        · refine Or.inr ⟨{ m with gene := r.newGene m }, ?_, hsn, hck, htid⟩
+        · refine Or.inr ⟨{ p.2 with gene := r.newGene p.2 }, ?_, hsn, hck, rfl, rfl, rfl, rfl⟩
           rw [hms]
-          exact List.mem_map.2 ⟨m, hm, rfl⟩
+          exact List.mem_map.2 ⟨p.2, hm, rfl⟩
 
-/-- the invariant of the current loop: the keys of the class-level dict are exactly the keys reported so far, every entry names
-    a model that IS in the output with that chain, and no key was reported by two constructors -/
+/-- the invariant of the current loop: the keys of the class-level dict are exactly the keys reported so far, every entry is
+    a model that IS in the output under that chain, and no key was reported by two constructors -/
 theorem runChromosome_fixed_inv (next : Nat → Nat) (regs : List RegionIn) (cs : ChrState) (acc : List Store)
-    (cs' : ChrState) (reps : List Store) (h : runChromosome .keepReads next regs cs acc = some (cs', reps))
-    (hsub : ∀ k, k ∈ chainKeys cs.reported ↔ k ∈ chrKeys acc)
-    (hids : ∀ p ∈ cs.reported, ∃ s ∈ acc, ∃ m ∈ s.models, isSplicedNovel m = true ∧ chainKey m = p.1 ∧ m.tid = p.2) :
-    (∀ k, k ∈ chainKeys cs'.reported ↔ k ∈ chrKeys reps) ∧
-    (∀ p ∈ cs'.reported, ∃ s ∈ reps, ∃ m ∈ s.models, isSplicedNovel m = true ∧ chainKey m = p.1 ∧ m.tid = p.2) ∧
+    (cs' : ChrState) (reps : List Store) (h : runChromosome .joinEarlier next regs cs acc = some (cs', reps))
+    (hsub : ∀ k, k ∈ modelKeys cs.reported ↔ k ∈ chrKeys acc)
+    (hids : ∀ p ∈ cs.reported, ∃ s ∈ acc, ∃ m ∈ s.models, isSplicedNovel m = true ∧ chainKey m = p.1 ∧ SameModel m p.2) :
+    (∀ k, k ∈ modelKeys cs'.reported ↔ k ∈ chrKeys reps) ∧
+    (∀ p ∈ cs'.reported, ∃ s ∈ reps, ∃ m ∈ s.models, isSplicedNovel m = true ∧ chainKey m = p.1 ∧ SameModel m p.2) ∧
     ((chrKeys acc).Nodup → (∀ s ∈ reps, (reportKeys s.models).Nodup) → (chrKeys reps).Nodup) := by
   induction regs generalizing cs acc with
   | nil =>
@@ -473,11 +662,11 @@ theorem runChromosome_fixed_inv (next : Nat → Nat) (regs : List RegionIn) (cs 
     · simp at h
     · rename_i cs1 s hp
       obtain ⟨hfresh, hrep, hnew⟩ := processRegion_fixed_keys hp
-      have hsub1 : ∀ k, k ∈ chainKeys cs1.reported ↔ k ∈ chrKeys (acc ++ [s]) := by
+      have hsub1 : ∀ k, k ∈ modelKeys cs1.reported ↔ k ∈ chrKeys (acc ++ [s]) := by
         intro k
         rw [hrep, chrKeys_append, chrKeys_single, List.mem_append, hsub k]
       have hids1 : ∀ p ∈ cs1.reported, ∃ s' ∈ acc ++ [s], ∃ m ∈ s'.models,
-          isSplicedNovel m = true ∧ chainKey m = p.1 ∧ m.tid = p.2 := by
+          isSplicedNovel m = true ∧ chainKey m = p.1 ∧ SameModel m p.2 := by
         intro p hp'
         rcases hnew p hp' with h1 | ⟨m, hm, hx⟩
         · obtain ⟨s', hs', hx⟩ := hids p h1
@@ -738,5 +927,90 @@ theorem dropLoopR_rcount (reported : ChainMap) (ms : List TModel) (s : Store) (s
           · simp only [List.mem_singleton] at h1
             subst h1
             exact hnd.1 hk'
+
+/-! ### round `c04rep2`: what the second `assign_reads_to_models` does with a read that is still unassigned -/
+
+theorem foldl_match_lists (read t : String) (ms : List String) (s : Store)
+    (h : t ∈ ms ∨ read ∈ readsIn s.readIds t) :
+    read ∈ readsIn (ms.foldl (fun s m => { s with rcount := amSet s.rcount read (cnt s.rcount read + 1),
+                                                   readIds := amSet s.readIds m (readsOf s m ++ [read]) }) s).readIds t := by
+  induction ms generalizing s with
+  | nil =>
+    rcases h with h | h
+    · simp at h
+    · exact h
+  | cons m rest ih =>
+    simp only [List.foldl_cons]
+    apply ih
+    by_cases hm : t = m
+    · refine Or.inr ?_
+      subst hm
+      simp [readsIn_amSet]
+    · rcases h with h | h
+      · rcases List.mem_cons.1 h with h1 | h1
+        · exact absurd h1 hm
+        · exact Or.inl h1
+      · refine Or.inr ?_
+        simp only [readsIn_amSet, hm, if_false]
+        exact h
+
+/-- a read that is not assigned yet and that the assigner finds consistent is listed under every model the assigner names -/
+theorem assignOne_lists (s : Store) (a : AssignIn) (t : String) (hun : ¬ cnt s.rcount a.read > 0)
+    (hc : a.consistent = true) (ht : t ∈ a.matched) : a.read ∈ readsIn (assignOne s a).readIds t := by
+  unfold assignOne
+  simp only [hun, if_false, hc, if_true]
+  exact foldl_match_lists a.read t a.matched _ (Or.inl ht)
+
+theorem foldl_match_rcount_other (read r : String) (hne : r ≠ read) (ms : List String) (s : Store) :
+    cnt (ms.foldl (fun s m => { s with rcount := amSet s.rcount read (cnt s.rcount read + 1),
+                                        readIds := amSet s.readIds m (readsOf s m ++ [read]) }) s).rcount r = cnt s.rcount r := by
+  induction ms generalizing s with
+  | nil => rfl
+  | cons m rest ih =>
+    simp only [List.foldl_cons]
+    rw [ih]
+    simp [cnt_amSet, hne]
+
+/-- `assign_reads_to_models` touches the count of the read it looks at only -/
+theorem assignOne_rcount_other (s : Store) (a : AssignIn) (r : String) (hne : r ≠ a.read) :
+    cnt (assignOne s a).rcount r = cnt s.rcount r := by
+  unfold assignOne
+  split
+  · simp [cnt_touchInt]
+  · split
+    · rw [foldl_match_rcount_other a.read r hne]
+      split <;> simp [cnt_touchInt]
+    · simp [cnt_amSet, hne]
+
+theorem foldl_assignOne_rcount_other (pre : List AssignIn) (s : Store) (r : String) (hne : ∀ b ∈ pre, b.read ≠ r) :
+    cnt (pre.foldl assignOne s).rcount r = cnt s.rcount r := by
+  induction pre generalizing s with
+  | nil => rfl
+  | cons b rest ih =>
+    simp only [List.foldl_cons]
+    rw [ih _ (fun x hx => hne x (List.mem_cons_of_mem _ hx))]
+    exact assignOne_rcount_other s b r (fun h => hne b (by simp) h.symm)
+
+theorem foldl_assignOne_grow (l : List AssignIn) (s : Store) : Grow s (l.foldl assignOne s) := by
+  induction l generalizing s with
+  | nil => exact Grow.refl _
+  | cons a t ih => simp only [List.foldl_cons]; exact (assignOne_grow s a).trans (ih _)
+
+/-- the second `assign_reads_to_models` on a NON-EMPTY storage: the first record of a read that is not assigned yet and that the
+    assigner finds consistent puts the read under every model the assigner names, and the line stays -/
+theorem assignReads_lists (s : Store) (pre post : List AssignIn) (a : AssignIn) (t : String)
+    (hne : s.models ≠ []) (hpre : ∀ b ∈ pre, b.read ≠ a.read) (hun : ¬ cnt s.rcount a.read > 0)
+    (hc : a.consistent = true) (ht : t ∈ a.matched) :
+    (a.read, t) ∈ (s.assignReads (pre ++ a :: post)).dumpR2T := by
+  unfold Store.assignReads
+  have hemp : s.models.isEmpty = false := by
+    cases hm : s.models with
+    | nil => exact absurd hm hne
+    | cons _ _ => rfl
+  simp only [hemp, Bool.false_eq_true, if_false, List.foldl_append, List.foldl_cons]
+  have h1 : ¬ cnt (pre.foldl assignOne s).rcount a.read > 0 := by
+    rw [foldl_assignOne_rcount_other pre s a.read hpre]; exact hun
+  have h2 := assignOne_lists (pre.foldl assignOne s) a t h1 hc ht
+  exact mem_dump_of_reads ((foldl_assignOne_grow post _).reads t |>.subset h2)
 
 end IsoVerif.Lemmas.C04
